@@ -13,11 +13,11 @@ RULE = ("cases = EncodeSymbols on arrays of 1..1e5 symbols (uniform / skewed / c
         "against the model (which also checks num_expected_bits_ against its fixed-point enclosure of the cross entropy and against the accuracy "
         "premise of C08_write_area_sufficient), on every direct case, on a quarter of the small arrays, on all large arrays and on the dominated "
         "arrays (one value + singletons / bit-length tags, 1e5..2.2e5 symbols); direct oracle on EVERY encode, run on a buffer with spare capacity "
-        "before the library call: bytes touched <= bytes reserved; a case is distinct by its text; all cases run the coder, so all count as non-trivial")
+        "before the library call: bytes touched <= bytes reserved; POLICY: the scheme byte and the raw unique-symbols bit length byte are read off the implementation's output and are inputs of the model encoder (es cases), the level -> bit-length function of the current code is tied by its own kind rbl against the harness replica, and an implementation that chooses another (decodable) bit length is reported as the # note raw-bit-length-policy and counted in generated.raw_bit_length_policy_diffs, not as a disagreement; a case is distinct by its text; all cases run the coder, so all count as non-trivial")
 
 def corr_runs(ctx):
     return [dict(tag="h_C08", harness="C08", driver="C08", args=[ctx.tier, ctx.seed],
-                 needs_vo=["Model/RansSymbol.vo", "Model/RansFloat.vo", "Model/SymbolCoding.vo", "Model/RansBound.vo", "Base/DriverSupport.vo"])]
+                 needs_vo=["Model/RansSymbol.vo", "Model/RansFloat.vo", "Model/SymbolCoding.vo", "Model/RansBound.vo", "Model/SymbolPolicy.vo", "Base/DriverSupport.vo"])]
 
 def classify(line):
     return None
